@@ -4978,3 +4978,202 @@ def cv4(m, run, rule='CV4.conversion-on-real-classes'):
                     raise AnalysisError('%s: interpreter met an unsupported construct: %s' % (key, ex))
                 run.ob(rule, key, why is None, ('returned unconverted' if odd is not None else 'a new %s.%s with the definition of the source, direction by direction' % (tmod, cname)) if why is None else why,
                        'geomdl/convert.py:%d in %s' % (fi.node.lineno, fi.key))
+
+
+# ====================================================================================== C11: least-squares approximation as a linear map of the data
+def ap3(m, run, rule='AP3.least-squares-fit-is-the-normal-equations-solution'):
+    """AP3: fitting.approximate_curve / approximate_surface interpreted with exact arithmetic on symbolic data points (atoms Q), the parameter
+    and knot vector constructions replaced by recorders and helpers.basis_function_one by a table of generic rational stand-in values
+    N(direction, function, parameter) (two different tables); transposition, product, LU factorisation and the substitutions are the real
+    linalg code.  The control points of the result, which are linear forms in the atoms Q, are compared exactly with the solution defined
+    by Eqs. 9.63 - 9.67: first / last control point = first / last data point, interior ones solve (N^T N) P = R with R_j = sum_k N_j(u_k)
+    (Q_k - N_0(u_k) Q_0 - N_n(u_k) Q_m); for a surface that curve fit applied along u to every data column and then along v to every row
+    of the intermediate net (the two passes commute), stored at v + size_v * u.  Degree, knot vector, parameter and sizes of each
+    direction must reach the helpers and the result together.  The identity is exact in the data points and for the two stand-in tables -
+    a polynomial identity test in the basis values, not a symbolic proof in them"""
+    from fractions import Fraction as F
+    from .skel import Sym
+    from .poly import Poly
+    dim = 2
+
+    def L(*lab):
+        return Tok('DEF', dep=frozenset([lab]))
+
+    def plab(tok):
+        return sorted(tok.dep)[0] if isinstance(tok, Tok) and tok.kind == 'DEF' and len(tok.dep) == 1 else None
+
+    def table(g):
+        def N(d, j, k):
+            x = (1103515245 * (97 * d + 31 * j + 7 * k + 1009 * g + 12345) + 12345) % 2147483648
+            return F(1 + x % 89, 97 + (x // 89) % 13)
+        return N
+
+    def solve(M, rhs):
+        """Gaussian elimination over Fractions; rhs rows are lists of Poly"""
+        n = len(M)
+        A = [list(r) for r in M]
+        B = [list(r) for r in rhs]
+        for c in range(n):
+            piv = next(r for r in range(c, n) if A[r][c] != 0)
+            A[c], A[piv] = A[piv], A[c]
+            B[c], B[piv] = B[piv], B[c]
+            for r in range(c + 1, n):
+                f = A[r][c] / A[c][c]
+                A[r] = [a - f * b for a, b in zip(A[r], A[c])]
+                B[r] = [a - b * f for a, b in zip(B[r], B[c])]
+        X = [None] * n
+        for r in range(n - 1, -1, -1):
+            acc = list(B[r])
+            for c in range(r + 1, n):
+                acc = [a - x * A[r][c] for a, x in zip(acc, X[c])]
+            X[r] = [a * (1 / A[r][r]) for a in acc]
+        return X
+
+    def fit(N, d, D, c):
+        """the least-squares curve fit of Eqs. 9.63 - 9.67 in direction d: D data (rows of Poly), c control points"""
+        s = len(D)
+        Mx = [[sum(N(d, j, k) * N(d, l, k) for k in range(1, s - 1)) for l in range(1, c - 1)] for j in range(1, c - 1)]
+        R = []
+        for j in range(1, c - 1):
+            row = [Poly() for _ in range(dim)]
+            for k in range(1, s - 1):
+                for x in range(dim):
+                    row[x] = row[x] + (D[k][x] - D[0][x] * N(d, 0, k) - D[s - 1][x] * N(d, c - 1, k)) * N(d, j, k)
+            R.append(row)
+        return [list(D[0])] + (solve(Mx, R) if c > 2 else []) + [list(D[s - 1])]
+
+    def as_poly(v):
+        s = _as_sym(v)
+        if s is None or s.q is not None:
+            return None
+        return s.p
+
+    def compare(got, want, what):
+        if not isinstance(got, list) or len(got) != len(want):
+            return 'the result has %r control points, expected %d' % (len(got) if isinstance(got, list) else got, len(want))
+        for i, (g_, w_) in enumerate(zip(got, want)):
+            if not isinstance(g_, (list, tuple)) or len(g_) != dim:
+                return 'control point %s has %r coordinates' % (what(i), len(g_) if isinstance(g_, (list, tuple)) else g_)
+            for x in range(dim):
+                p_ = as_poly(g_[x])
+                if p_ is None or p_ != w_[x]:
+                    return 'control point %s, coordinate %d is %s; the least-squares solution is %r' % (what(i), x, repr(g_[x])[:160], w_[x])
+        return None
+    bad_c, bad_s, ncase_c, ncase_s = [], [], 0, 0
+    for g in (0, 1):
+        N = table(g)
+        # ---------------------------------------------------------------- curve
+        fc = m.func('fitting.approximate_curve')
+        for s_, c_, p_ in ((6, 4, 2), (5, 3, 1), (7, 5, 3)):
+            ncase_c += 1
+            Q = [[Poly.atom('Q%d_%d' % (k, x)) for x in range(dim)] for k in range(s_)]
+            P = [[Sym(a) for a in r] for r in Q]
+            uk = [L('u', k) for k in range(s_)]
+            kvs, shapes = {}, []
+
+            def cpc(sk, node, points, *a, **k):
+                if points is not P:
+                    raise Violation('AP3', 'compute_params_curve is not given the data points', node)
+                return uk
+
+            def ckv2(sk, node, degree, nd, nc, params, _uk=uk):
+                kv = [L('kv', len(kvs), i) for i in range(nc + degree + 1)]
+                kvs[id(kv)] = (degree, nd, nc, 'u' if params is _uk else '?')
+                shapes.append(kv)
+                return kv
+
+            def bf1(sk, node, degree, kv, j, u, _p=p_, _s=s_, _c=c_):
+                if kvs.get(id(kv)) != (_p, _s, _c, 'u') or degree != _p:
+                    raise Violation('AP3', 'basis_function_one is called with degree %r and a knot vector built from %r; the curve has degree %d, %d data points, %d control points' % (degree, kvs.get(id(kv)), _p, _s, _c), node)
+                lab = plab(u)
+                if lab is None or lab[0] != 'u' or not isinstance(j, int) or not 0 <= j < _c:
+                    raise Violation('AP3', 'basis_function_one is asked for function %r at %r' % (j, u), node)
+                return N(0, j, lab[1])
+            ab = dict(STD_ABSTRACTED)
+            ab[('fitting', 'compute_params_curve')] = Py(cpc, 'compute_params_curve')
+            ab[('fitting', 'compute_knot_vector2')] = Py(ckv2, 'compute_knot_vector2')
+            ab[('helpers', 'basis_function_one')] = Py(bf1, 'basis_function_one')
+            made = []
+            ab[('class', ('BSpline', 'Curve'))] = lambda sk, node, *a, **k: rec_shape(('BSpline', 'Curve'), made, {}, dict(k), 'constructed')
+            sk = SK(m, ab)
+            sk.exact = True
+            why = None
+            try:
+                out = sk.call(fc, [P, p_], {'ctrlpts_size': c_})
+                if not isinstance(out, Bag):
+                    why = 'does not return a curve'
+                else:
+                    a_ = out._a
+                    why = compare(a_.get('ctrlpts'), fit(N, 0, Q, c_), lambda i: str(i))
+                    if why is None and (a_.get('degree') != p_ or kvs.get(id(a_.get('knotvector'))) != (p_, s_, c_, 'u')):
+                        why = 'the result gets degree %r and a knot vector built from %r' % (a_.get('degree'), kvs.get(id(a_.get('knotvector'))))
+            except Violation as v:
+                why = '%s %s' % (v.msg, v.where())
+            except Unsupported as ex:
+                raise AnalysisError('%s: interpreter met an unsupported construct: %s' % (fc.key, ex))
+            if why:
+                bad_c.append(('%d data points, %d control points, degree %d, table %d' % (s_, c_, p_, g), why))
+        # ---------------------------------------------------------------- surface
+        fs = m.func('fitting.approximate_surface')
+        for (su, sv), (cu, cv), (pu, pv) in (((5, 4), (4, 3), (2, 1)), ((4, 6), (3, 4), (1, 2))):
+            ncase_s += 1
+            Q = [[[Poly.atom('Q%d_%d_%d' % (i, j, x)) for x in range(dim)] for j in range(sv)] for i in range(su)]
+            P = [[Sym(a) for a in Q[i // sv][i % sv]] for i in range(su * sv)]
+            uk, vl = [L('u', k) for k in range(su)], [L('v', k) for k in range(sv)]
+            kvs, made = {}, []
+
+            def cps(sk, node, points, a, b, *r, **k):
+                if points is not P or (a, b) != (su, sv):
+                    raise Violation('AP3', 'compute_params_surface is called with sizes (%r, %r); the data grid is %d x %d' % (a, b, su, sv), node)
+                return uk, vl
+
+            def ckv2(sk, node, degree, nd, nc, params, _uk=uk, _vl=vl):
+                kv = [L('kv', len(kvs), i) for i in range(nc + degree + 1)]
+                kvs[id(kv)] = (degree, nd, nc, 'u' if params is _uk else ('v' if params is _vl else '?'))
+                made.append(kv)
+                return kv
+            want_kv = {'u': (pu, su, cu, 'u'), 'v': (pv, sv, cv, 'v')}
+
+            def bf1(sk, node, degree, kv, j, u):
+                lab = plab(u)
+                if lab is None or lab[0] not in ('u', 'v'):
+                    raise Violation('AP3', 'basis_function_one is asked for a value at %r' % (u,), node)
+                d = lab[0]
+                if kvs.get(id(kv)) != want_kv[d] or degree != want_kv[d][0]:
+                    raise Violation('AP3', 'basis_function_one at a %s parameter is called with degree %r and a knot vector built from %r; the %s direction has (degree, data points, control points) = %r'
+                                    % (d, degree, kvs.get(id(kv)), d, want_kv[d][:3]), node)
+                if not isinstance(j, int) or not 0 <= j < want_kv[d][2]:
+                    raise Violation('AP3', 'basis_function_one is asked for function %r of the %s direction' % (j, d), node)
+                return N(0 if d == 'u' else 1, j, lab[1])
+            ab = dict(STD_ABSTRACTED)
+            ab[('fitting', 'compute_params_surface')] = Py(cps, 'compute_params_surface')
+            ab[('fitting', 'compute_knot_vector2')] = Py(ckv2, 'compute_knot_vector2')
+            ab[('helpers', 'basis_function_one')] = Py(bf1, 'basis_function_one')
+            shapes = []
+            ab[('class', ('BSpline', 'Surface'))] = lambda sk, node, *a, **k: rec_shape(('BSpline', 'Surface'), shapes, {}, dict(k), 'constructed')
+            sk = SK(m, ab)
+            sk.exact = True
+            why = None
+            try:
+                out = sk.call(fs, [P, su, sv, pu, pv], {'ctrlpts_size_u': cu, 'ctrlpts_size_v': cv})
+                if not isinstance(out, Bag):
+                    why = 'does not return a surface'
+                else:
+                    a_ = out._a
+                    T = [fit(N, 0, [Q[i][j] for i in range(su)], cu) for j in range(sv)]            # T[j][i']: column j fitted along u
+                    Fin = [fit(N, 1, [T[j][i] for j in range(sv)], cv) for i in range(cu)]          # Fin[i'][j']
+                    want = [Fin[i][j] for i in range(cu) for j in range(cv)]
+                    why = compare(a_.get('ctrlpts'), want, lambda k: '(u %d, v %d) at position %d' % (k // cv, k % cv, k))
+                    if why is None and (a_.get('degree_u'), a_.get('degree_v'), a_.get('ctrlpts_size_u'), a_.get('ctrlpts_size_v')) != (pu, pv, cu, cv):
+                        why = 'the result gets degrees / sizes (%r, %r) / (%r, %r), expected (%d, %d) / (%d, %d)' % (a_.get('degree_u'), a_.get('degree_v'), a_.get('ctrlpts_size_u'), a_.get('ctrlpts_size_v'), pu, pv, cu, cv)
+                    elif why is None and (kvs.get(id(a_.get('knotvector_u'))) != want_kv['u'] or kvs.get(id(a_.get('knotvector_v'))) != want_kv['v']):
+                        why = 'the knot vectors of the result are built from %r / %r' % (kvs.get(id(a_.get('knotvector_u'))), kvs.get(id(a_.get('knotvector_v'))))
+            except Violation as v:
+                why = '%s %s' % (v.msg, v.where())
+            except Unsupported as ex:
+                raise AnalysisError('%s: interpreter met an unsupported construct: %s' % (fs.key, ex))
+            if why:
+                bad_s.append(('%d x %d data points, %d x %d control points, degrees (%d, %d), table %d' % (su, sv, cu, cv, pu, pv, g), why))
+    for fi_, bad, n_ in ((m.func('fitting.approximate_curve'), bad_c, ncase_c), (m.func('fitting.approximate_surface'), bad_s, ncase_s)):
+        run.ob(rule, '%s :: %d cases' % (fi_.key, n_), not bad, 'the control points are the solution of Eqs. 9.63 - 9.67, exactly in the data points' if not bad else
+               '%s: %s   [%d of %d cases]' % (bad[0][0], bad[0][1], len(bad), n_), 'geomdl/fitting.py:%d in %s' % (fi_.node.lineno, fi_.key))
